@@ -169,6 +169,26 @@ def run(chk, prog):
                         if a.loops[-1].cmp == "range" and a.idx[0] == a.loops[-1].sym:
                             # for (auto& o : _offset): an in-place pass over the rows already there; adds no rows
                             continue
+                        if a.idx[0] != L.sym and len(a.loops) == 2 and a.loops[0].lo == 0 and a.loops[1].lo == 0:
+                            # rows filled block by block: _offset[n*X + j], n over the bunches, j over the X rows of a bunch
+                            Ln, Lj = a.loops
+                            X_ = S.norm(Lj.hi)
+                            want_idx = sp.expand(Ln.sym * X_ + Lj.sym)
+                            okl = sp.expand(S.norm(a.idx[0]) - want_idx) == 0
+                            chk.check(okl, "R2", A.loc(f, {"line": a.line}), "%s fills the offset rows bunch-major (_offset[n*%s + j], got %s)" % (f["qname"].replace("vfps::", ""), X_, a.idx[0]),
+                                      "%s:fill-layout:%s" % (f["qname"].replace("vfps::", ""), a.idx[0]))
+                            # a block copy: bunch n's rows must come from bunch n's rows of the source (no permutation of the bunches)
+                            src_ix = [t_ for t_ in (a.value.atoms(sp.Indexed) if a.value is not None else [])]
+                            if a.op == "=" and len(src_ix) == 1 and a.value == src_ix[0]:
+                                d_ = sp.expand(S.norm(src_ix[0].indices[0]) - S.norm(a.idx[0]))
+                                chk.check(d_ == 0, "R2", A.loc(f, {"line": a.line}),
+                                          "%s: the rows of bunch n are copied from the rows of bunch n of the source (source index - destination index = %s)"
+                                          % (f["qname"].replace("vfps::", ""), d_), "%s:fill-source-permuted:%s" % (f["qname"].replace("vfps::", ""), d_))
+                            hi = sp.expand(S.norm(Ln.hi) * X_).subs({sp.Symbol("_xsize", real=True): xs, sp.Symbol("_ysize", real=True): ys})
+                            fill_rows = hi if fill_rows is None else sp.Max(fill_rows, hi)
+                            fill_sites.append(A.loc(f, {"line": a.line}))
+                            chk.used(f)
+                            continue
                         A.require(a.idx[0] == L.sym and L.lo == 0, "%s: _offset filled at %s, not at the loop variable" % (f["qname"], a.idx[0]))
                         hi = S.norm(L.hi).subs({sp.Symbol("_xsize", real=True): xs, sp.Symbol("_ysize", real=True): ys})
                         fill_rows = hi if fill_rows is None else sp.Max(fill_rows, hi)
